@@ -59,12 +59,15 @@ pub fn new_val(child: u32, seq: u16) -> Val {
 pub enum Out {
     V(Val),
     L(Vec<Out>),
+    /// a plain number (enumerate index, adapter tag); owns nothing
+    N(u32),
 }
 
 impl Out {
     pub fn sig(&self) -> u64 {
         match self {
             Out::V(v) => mix(0x51ed, ((v.id as u64) << 32) | v.canary as u64) | 1,
+            Out::N(n) => mix(0x4e4e, *n as u64) | 1,
             Out::L(l) => {
                 let mut h = mix(0x7157, l.len() as u64);
                 for o in l {
@@ -76,7 +79,7 @@ impl Out {
     }
     pub fn elem_sigs(&self) -> Vec<u64> {
         match self {
-            Out::V(_) => vec![self.sig()],
+            Out::V(_) | Out::N(_) => vec![self.sig()],
             Out::L(l) => l.iter().map(|o| o.sig()).collect(),
         }
     }
@@ -87,6 +90,7 @@ impl Out {
                 Some(o) => mix(0x0916, ((o.0 as u64) << 16) | o.1 as u64),
                 None => 0xdead,
             }),
+            Out::N(n) => mix(0x4e4e, *n as u64),
             Out::L(l) => {
                 let mut h = mix(0x7157, l.len() as u64);
                 for o in l {
@@ -110,6 +114,7 @@ impl Out {
                     d.val_returned[v.id as usize] = true;
                 }
             }),
+            Out::N(_) => {}
             Out::L(l) => {
                 for o in l {
                     o.check_returned(bad);
@@ -253,7 +258,7 @@ pub fn leaf_poll(id: u32, waker: &Waker) -> LeafRes {
     }
 }
 
-fn child_dropped(id: u32) {
+pub fn child_dropped(id: u32) {
     with_drops(|d| {
         d.clock += 1;
         let i = id as usize;
